@@ -24,6 +24,7 @@ type Carrier int
 const (
 	CarSlice  Carrier = iota // []interface{}
 	CarNative                // ListResolver (RS) / opaque list only the any-resolver understands (AS) / typed slice (FS is always typed)
+	CarListRes               // AS only: a list that implements ggql.ListResolver itself (it must be asked, not the root resolver)
 )
 
 // Binding mode for the reflection strategy.
@@ -323,6 +324,9 @@ func (ar *AnyRes) wrap(v interface{}) interface{} {
 		}
 		if ar.car == CarNative {
 			return &anyList{out, -1}
+		}
+		if ar.car == CarListRes {
+			return &rlist{out}
 		}
 		return out
 	}
